@@ -305,6 +305,12 @@ func (m *vC12Mon) installScript(i int, id peer.ID) {
 			if cnt%2 == 0 {
 				rep.Err = errors.New("vsim: stream reset by peer (flaky)")
 			}
+		case "probefail":
+			// answers everything but a FIND_NODE for its own id (admission / liveness probe), which fails after 1.5-3 s
+			if req.GetType() == pb.Message_FIND_NODE && string(req.GetKey()) == string(id) {
+				rep.Delay = d + time.Duration(1500+(i%4)*500)*time.Millisecond
+				rep.Err = errors.New("vsim: stream reset by peer (probe)")
+			}
 		case "empty":
 			rep.Mutate = func(_, resp *pb.Message) { resp.CloserPeers = nil }
 		case "liarself":
@@ -1109,8 +1115,10 @@ func (m *vC12Mon) runHistory(t *testing.T) {
 			kind = "burst"
 		case x < 94:
 			kind = "identify-self"
-		default:
+		case x < 97:
 			kind = "stale-refresh"
+		default:
+			kind = "overlap-refresh"
 		}
 		tag := fmt.Sprintf("step %d %s", step, kind)
 		switch kind {
@@ -1190,6 +1198,51 @@ func (m *vC12Mon) runHistory(t *testing.T) {
 			d += 29 * time.Microsecond
 			tag += " " + d.String()
 			time.Sleep(d)
+		case "overlap-refresh":
+			// A member answers lookups but fails its liveness probe, slowly: a lookup started during the refresh gets
+			// its answer (and refreshes the member's "last successful query" stamp) while the probe is in flight.
+			// The probe still fails afterwards, and "a member that fails the liveness probe of a refresh is removed".
+			time.Sleep(time.Duration(float64(cfg.Grace)*1.1) + 31*time.Microsecond)
+			if !m.settle() {
+				c.Fail("settle", "requests still in flight after 300 s of virtual time (%s)", tag)
+				return
+			}
+			// every other peer is healthy during this step: the attribution of failures to the refresh's own lookups
+			// versus the caller's lookup (demanding or not) relies on steps not overlapping
+			for _, id := range n.IDs {
+				switch m.kind(id) {
+				case "ok", "slow", "empty":
+				default:
+					m.flip(id, "ok")
+				}
+			}
+			if p, ok := m.pick(r, isMember); ok {
+				m.flip(p, "probefail")
+				tag += " " + n.Name(p) + "=probefail"
+			}
+			w := vC12Win{StartSeq: n.H.Seq.Add(1), Members: m.table()}
+			chs := []<-chan error{n.D.ForceRefresh()}
+			m.mu.Lock()
+			m.wins = append(m.wins, w)
+			wi := len(m.wins) - 1
+			m.mu.Unlock()
+			after := time.Duration(100+r.Intn(800)) * time.Millisecond
+			lkDone := make(chan *vC12Lookup, 1)
+			go func() {
+				time.Sleep(after)
+				lk, _, _ := m.lookup("plain", 0, false)
+				lkDone <- lk
+			}()
+			m.awaitRefresh(chs, bound, "refresh-answered")
+			lk := <-lkDone
+			if !m.settle() {
+				c.Fail("settle", "requests still in flight after 300 s of virtual time (%s)", tag)
+				return
+			}
+			m.wins[wi].EndSeq = n.H.Seq.Add(1)
+			lk.EndSeq = n.H.Seq.Add(1)
+			tag += fmt.Sprintf(" F, lookup +%v", after)
+			c.Obs("refreshes_overlapped_by_a_lookup", 1)
 		case "stale-refresh", "refresh":
 			if kind == "stale-refresh" {
 				time.Sleep(time.Duration(float64(cfg.Grace)*1.1) + 31*time.Microsecond)
@@ -1365,7 +1418,7 @@ func (m *vC12Mon) runHistory(t *testing.T) {
 
 func TestVerif_C12_histories(t *testing.T) {
 	vh.Run(t, vh.Spec{Prop: "C12", Unit: "histories", Quick: 400, Thorough: 16000, CostMs: 100,
-		Rule:    "PRNG histories of 8-16 steps over 3-15 simulated peers (K in {24,40} so that no bucket fills; alpha in {1,3,10,K}; beta = K or, in a third of the cases, 1/3 with follow-up phase; optional generated routing-table filter; refresh period 20 s-5 min, query timeout 4/10 s, sender read timeout 3/10 s, lookup-check concurrency 256/1/2; fix-low-peers loop running): burst connect+identify, identify with/without the DHT protocol, protocol removed/added, health flips (ok, slow, slow successful dial, empty answer, liar naming self/strangers, request error, dead, slow dial failure, silent, flaky), disconnect, GetClosestPeers (plain / cancelled at a PRNG instant or exactly at a reply instant / pre-cancelled), RefreshRoutingTable/ForceRefresh (1-3 at once), idle beyond the ping grace period, identify event for the local node, Close in four variants with refresh requests before/during/after; every step ends at a rest point in virtual time where PeerAdded/PeerRemoved callbacks, ListPeers and the refresh channels are judged against the simulated wire log; non-trivial = at least one admission and one eviction; distinct by (shape, step kinds, #adds, #removals)",
+		Rule:    "PRNG histories of 8-16 steps over 3-15 simulated peers (K in {24,40} so that no bucket fills; alpha in {1,3,10,K}; beta = K or, in a third of the cases, 1/3 with follow-up phase; optional generated routing-table filter; refresh period 20 s-5 min, query timeout 4/10 s, sender read timeout 3/10 s, lookup-check concurrency 256/1/2; fix-low-peers loop running): burst connect+identify, identify with/without the DHT protocol, protocol removed/added, health flips (ok, slow, slow successful dial, empty answer, liar naming self/strangers, request error, dead, slow dial failure, silent, flaky), disconnect, GetClosestPeers (plain / cancelled at a PRNG instant or exactly at a reply instant / pre-cancelled), RefreshRoutingTable/ForceRefresh (1-3 at once), a forced refresh overlapped by a lookup while a member that answers lookups fails its liveness probe after 1.5-3 s, idle beyond the ping grace period, identify event for the local node, Close in four variants with refresh requests before/during/after; every step ends at a rest point in virtual time where PeerAdded/PeerRemoved callbacks, ListPeers and the refresh channels are judged against the simulated wire log; non-trivial = at least one admission and one eviction; distinct by (shape, step kinds, #adds, #removals)",
 		Clauses: []string{"never-self", "admit-after-reply", "admit-fresh-reply", "probe-admission-valid", "removal-justified", "failed-member-removed", "failed-probe-evicts-at-once", "failed-member-absent", "cancel-only-retained", "callbacks-match-table", "refresh-answered", "refresh-one-value", "refresh-answered-shutdown"}},
 		func(c *vh.Case) {
 			cfg := vC12Gen(c)
